@@ -31,7 +31,7 @@ structure Mat (K : Type) where
   rows : Nat
   cols : Nat
   data : Array K          -- row major, `rows*cols` elements
-deriving Repr
+deriving Repr, DecidableEq
 
 /-- `TransMat`: `rows = row_`, `cols = col_`; the storage is the *source* matrix'
     row-major storage, i.e. column major for the transposed view -/
@@ -39,12 +39,12 @@ structure TMat (K : Type) where
   rows : Nat
   cols : Nat
   data : Array K
-deriving Repr
+deriving Repr, DecidableEq
 
 structure SMat (K : Type) where
   dim  : Nat
   data : Array K          -- packed lower triangle, `dim*(dim+1)/2` elements
-deriving Repr
+deriving Repr, DecidableEq
 
 abbrev Vec (K : Type) := Array K
 
@@ -175,6 +175,14 @@ def mbZip (f : K → K → K) (A B : MB K) : Except Err (Mat K) :=
        | .error e => .error e
        | .ok d => .ok ⟨A.rows, A.cols, d⟩
 
+/-- `A(i,k) * B(k,j)` through the accessors -/
+def getMul [Mul K] (A B : MB K) (i k j : Nat) : Except Err K :=
+  match A.get i k with
+  | .error e => .error e
+  | .ok x => match B.get k j with
+             | .error e => .error e
+             | .ok y => .ok (x * y)
+
 /-- free `operator*(const MatBase&, const MatBase&)`:
     `for i, j: s = 0; for (k=1; k<=B.rows(); k++) s += A(i,k)*B(k,j); *c++ = s` -/
 def mbMul [Add K] [Mul K] [Zero K] (A B : MB K) : Except Err (Mat K) :=
@@ -182,12 +190,7 @@ def mbMul [Add K] [Mul K] [Zero K] (A B : MB K) : Except Err (Mat K) :=
   else match tabulate (A.rows * B.cols) (fun p =>
           let i := p / B.cols + 1
           let j := p % B.cols + 1
-          sumLoop B.rows (fun k0 =>
-            match A.get i (k0 + 1) with
-            | .error e => .error e
-            | .ok x => match B.get (k0 + 1) j with
-                       | .error e => .error e
-                       | .ok y => .ok (x * y))) with
+          sumLoop B.rows (fun k0 => getMul A B i (k0 + 1) j)) with
        | .error e => .error e
        | .ok d => .ok ⟨A.rows, B.cols, d⟩
 
@@ -272,21 +275,21 @@ def tSubMat [Sub K] (A : TMat K) (B : Mat K) : Except Err (Mat K) :=
                   | .error e => .error e
                   | .ok d => .ok ⟨T.rows, T.cols, d⟩
 
-/-- `TransMat::operator+(const TransMat&)`.
-    AS CODED: the result is built by `TransMat T(this->rows(), this->cols())`, and the
-    constructor `TransMat(Index r, Index c) : MatBase(c, r, r*c)` swaps the dimensions, so the
-    result has `rows = this->cols()`, `cols = this->rows()` over the element-wise sum of the storages. -/
+/-- `TransMat::operator+(const TransMat&)`: `TransMat T(this->rows(), this->cols()); add(M, T)`.
+    Models the code WITH notes/proposed/C15-transmat-ctor-dims.diff, i.e. the constructor
+    `TransMat(Index r, Index c) : MatBase(r, c, r*c)`.  (Before the fix the constructor swapped
+    its arguments and the result had `rows = this->cols()`, `cols = this->rows()`.) -/
 def tAddT [Add K] (A B : TMat K) : Except Err (TMat K) :=
   if A.rows ≠ B.rows ∨ A.cols ≠ B.cols then .error .badRank
   else match baseAdd A.data B.data (A.rows * A.cols) with
        | .error e => .error e
-       | .ok d => .ok ⟨A.cols, A.rows, d⟩
+       | .ok d => .ok ⟨A.rows, A.cols, d⟩
 
 def tSubT [Sub K] (A B : TMat K) : Except Err (TMat K) :=
   if A.rows ≠ B.rows ∨ A.cols ≠ B.cols then .error .badRank
   else match baseSub A.data B.data (A.rows * A.cols) with
        | .error e => .error e
-       | .ok d => .ok ⟨A.cols, A.rows, d⟩
+       | .ok d => .ok ⟨A.rows, A.cols, d⟩
 
 /-- `operator*(const TransMat&, const Vec&)` : `ai = ab + i`, `ai += A.rows()` -/
 def tMulVec [Add K] [Mul K] [Zero K] (A : TMat K) (b : Vec K) : Except Err (Vec K) :=
@@ -313,15 +316,15 @@ def matMulT [Add K] [Mul K] [Zero K] (A : Mat K) (B : TMat K) : Except Err (Mat 
        | .error e => .error e
        | .ok d => .ok ⟨A.rows, B.cols, d⟩
 
-/-- `operator*(const TransMat&, const TransMat&)` : `a = ab (+= A.rows())`, `b = bb + j*B.cols() (++)`.
-    AS CODED the column stride of `B` is `B.cols()`; the storage of `B` is column major with
-    stride `B.rows()` -/
+/-- `operator*(const TransMat&, const TransMat&)` : `a = ab (+= A.rows())`, `b = bb + j*B.rows() (++)`.
+    Models the code WITH notes/proposed/C15-transmat-transmat-stride.diff (before the fix the
+    stride was `B.cols()`: wrong for a non-square right operand, reads outside it when cols > rows) -/
 def tMulT [Add K] [Mul K] [Zero K] (A B : TMat K) : Except Err (Mat K) :=
   if A.cols ≠ B.rows then .error .badRank
   else match tabulate (A.rows * B.cols) (fun p =>
           let i := p / B.cols
           let j := p % B.cols
-          sumLoop A.cols (fun k => mulRd A.data (i + k * A.rows) B.data (j * B.cols + k))) with
+          sumLoop A.cols (fun k => mulRd A.data (i + k * A.rows) B.data (j * B.rows + k))) with
        | .error e => .error e
        | .ok d => .ok ⟨A.rows, B.cols, d⟩
 
@@ -332,12 +335,13 @@ def tvecMulMat [Add K] [Mul K] [Zero K] (b : Vec K) (A : Mat K) : Except Err (Ve
   if b.size ≠ A.rows then .error .badRank
   else tabulate A.cols (fun j => sumLoop A.rows (fun i => mulRd b i A.data (j + i * A.cols)))
 
-/-- `operator*(const TransVec&, const MatBase&)`.
-    AS CODED the inner loop runs `for (i=1; i<=A.cols(); i++)` (not `A.rows()`) -/
+/-- `operator*(const TransVec&, const MatBase&)` : `for j ≤ A.cols(): for i ≤ A.rows(): s += b(i)*A(i,j)`.
+    Models the code WITH notes/proposed/C15-transvec-matbase-bound.diff (before the fix the inner
+    loop ran to `A.cols()`) -/
 def tvecMulMB [Add K] [Mul K] [Zero K] (b : Vec K) (A : MB K) : Except Err (Vec K) :=
   if b.size ≠ A.rows then .error .badRank
   else tabulate A.cols (fun j0 =>
-         sumLoop A.cols (fun i0 =>
+         sumLoop A.rows (fun i0 =>
            match rd b i0 with
            | .error e => .error e
            | .ok x => match A.get (i0 + 1) (j0 + 1) with
